@@ -20,6 +20,7 @@ from .model import FuncInfo, Program
 
 _ANCHORS_FILE = os.path.join(os.path.dirname(os.path.abspath(__file__)), 'anchors.json')
 _ANCHORS: Set[str] = set()
+_GLOBALS: Set[str] = set()
 
 
 def anchors() -> Set[str]:
@@ -28,6 +29,14 @@ def anchors() -> Set[str]:
         with open(_ANCHORS_FILE) as fh:
             _ANCHORS = set(json.load(fh)['functions'])
     return _ANCHORS
+
+
+def known_globals() -> Set[str]:
+    global _GLOBALS
+    if not _GLOBALS:
+        with open(_ANCHORS_FILE) as fh:
+            _GLOBALS = set(json.load(fh)['globals'])
+    return _GLOBALS
 
 
 def new_functions(prog: Program) -> List[FuncInfo]:
@@ -40,6 +49,8 @@ def normalised(prog: Program) -> Program:
     if cached is not None:
         return cached
     orig = prog
+    from .peval import canonical
+    prog = canonical(prog, known_globals())
     prog = _flatten_mixins(prog)
     new = new_functions(prog)
     out = prog
@@ -83,6 +94,13 @@ def normalised(prog: Program) -> Program:
         out = _without(prog, out, {q for q in dead if out.funcs[q].name.startswith('_') and not out.funcs[q].name.endswith('__')
                                    and any(f'`{out.funcs[q].name}`' in line for line in inline_log(out))})
         out.__dict__['dead_helpers'] = dead
+    # inlining can expose further idioms (a predicate helper substituted into `filter(lambda ..)`): canonicalise once more
+    dead_h = out.__dict__.get('dead_helpers')
+    out2 = canonical(out, known_globals())
+    if out2 is not out:
+        out2.__dict__['dead_helpers'] = dead_h or set()
+        out2.__dict__['inline_log'] = inline_log(out)
+        out = out2
     out.__dict__['_normalised'] = out
     prog.__dict__['_normalised'] = out
     orig.__dict__['_normalised'] = out
@@ -203,8 +221,22 @@ def _without(prog: Program, out: Program, gone: Set[str]) -> Program:
 
 def write_anchor_table(prog: Program) -> int:
     funcs = sorted(q for q, f in prog.funcs.items() if not isinstance(f.node, ast.Lambda))
+    from .peval import _module_level_bindings
+    globs: Set[str] = set()
+    for m in prog.modules.values():
+        for name in _module_level_bindings(m.tree):
+            globs.add(f'{m.name}.{name}')
+        for st in ast.walk(m.tree):
+            if isinstance(st, ast.ClassDef):
+                for cs in st.body:
+                    for x in ast.walk(cs) if isinstance(cs, (ast.Assign, ast.AnnAssign, ast.AugAssign)) else []:
+                        if isinstance(x, ast.Name) and isinstance(x.ctx, ast.Store):
+                            globs.add(f'{m.name}.{st.name}.{x.id}')
     with open(_ANCHORS_FILE, 'w') as fh:
         json.dump({'_comment': 'qualified names of the functions of the tree the rules were written against (names only); '
                                'functions not listed here are inlined into their callers before analysis (pjx/normal.py)',
-                   'functions': funcs}, fh, indent=0)
+                   'functions': funcs,
+                   'globals_comment': 'module-level and class-level names of the same tree (names only); a NEW name bound once to an '
+                                      'immutable expression is a constant that pjx/peval.py replaces by its value',
+                   'globals': sorted(globs)}, fh, indent=0)
     return len(funcs)
